@@ -1,2 +1,6 @@
+pub mod dense;
+pub mod gibbs;
+pub mod mem;
 pub mod scan;
 pub mod stream;
+pub mod stripe;
